@@ -4,41 +4,164 @@ package c12
 
 import (
 	"fmt"
+	"regexp"
 	"runtime"
 	"strings"
+	"sync/atomic"
 	"testing"
 	"testing/synctest"
+	"time"
 
 	"github.com/wi1dcard/fingerproxy/pkg/http2"
 	"verif/bubble"
 )
 
-// runBubble is bubble.Run without the all-goroutine census taken at the end of
-// every execution (a stop-the-world runtime.Stack with a 1 MiB buffer, which
-// costs more than the execution itself in this check). Same contract: a panic
-// of the body is recovered and reported, "blocked goroutines remain" at the
-// end of the bubble is reported as Deadlock, the http2 channel pool is reset.
-func runBubble(t *testing.T, body func()) (res bubble.RunResult) {
-	defer func() {
-		if r := recover(); r != nil {
-			s := fmt.Sprint(r)
-			if strings.Contains(s, "deadlock") || strings.Contains(s, "blocked goroutines remain") {
-				res.Deadlock = s
-				return
-			}
-			panic(r)
+// runResult extends bubble.RunResult with a proven hard deadlock.
+type runResult struct {
+	bubble.RunResult
+	// Hang: the execution can never reach quiescence: every goroutine of the
+	// bubble is blocked and at least one of them waits for a sync.Mutex (which
+	// no goroutine will ever release). The string names where.
+	Hang      string
+	HangStack string
+	Watchdog  string // the execution neither finished nor was proven dead (harness problem)
+}
+
+var bubbleRE = regexp.MustCompile(`synctest bubble (\d+)`)
+var gHeadRE = regexp.MustCompile(`^goroutine \d+ \[([^\]]*)\]:`)
+
+// states in which a goroutine cannot make progress by itself
+func blockedState(st string) bool {
+	st = strings.TrimSpace(strings.Split(st, ",")[0])
+	st = strings.TrimSuffix(st, " (durable)")
+	switch st {
+	case "chan receive", "chan send", "select", "sync.Cond.Wait", "sync.Mutex.Lock", "sync.RWMutex.Lock", "sync.RWMutex.RLock",
+		"synctest.Wait", "synctest.Run", "sleep", "sync.WaitGroup.Wait", "semacquire", "chan receive (nil chan)", "select (no cases)":
+		return true
+	}
+	return false
+}
+
+// analyse decides from a full goroutine dump whether bubble id is dead.
+func analyse(dump, id string) (dead bool, where, stack string) {
+	allBlocked, n := true, 0
+	for _, blk := range strings.Split(dump, "\n\n") {
+		lines := strings.Split(blk, "\n")
+		m := gHeadRE.FindStringSubmatch(lines[0])
+		if m == nil {
+			continue
 		}
-	}()
-	defer http2.VerifResetPools()
-	synctest.Test(t, func(t *testing.T) {
+		b := bubbleRE.FindStringSubmatch(m[1])
+		if b == nil || b[1] != id {
+			continue
+		}
+		n++
+		if !blockedState(m[1]) {
+			allBlocked = false
+		}
+		if strings.HasPrefix(m[1], "sync.Mutex.Lock") || strings.HasPrefix(m[1], "sync.RWMutex") {
+			var fs []string
+			for _, l := range lines[1:] {
+				if strings.HasPrefix(l, "\t") || strings.HasPrefix(l, "created by") {
+					continue
+				}
+				if i := strings.LastIndex(l, "("); i > 0 {
+					l = l[:i]
+				}
+				if strings.HasPrefix(l, "internal/sync.") || strings.HasPrefix(l, "sync.") || strings.HasPrefix(l, "runtime.") {
+					continue
+				}
+				if i := strings.LastIndex(l, "/"); i >= 0 {
+					l = l[i+1:]
+				}
+				fs = append(fs, l)
+				if len(fs) == 3 {
+					break
+				}
+			}
+			if where == "" {
+				where = "sync.Mutex.Lock in " + strings.Join(fs, " <- ")
+				stack = blk
+			}
+		}
+	}
+	return n > 0 && allBlocked && where != "", where, stack
+}
+
+// runBubble executes body in a fresh testing/synctest bubble (like
+// bubble.Run, without the all-goroutine census after every execution) on a
+// helper goroutine, and watches it from outside the bubble: if the execution
+// does not finish, goroutine dumps are analysed until either it finishes, or
+// the bubble is PROVEN dead (all its goroutines blocked, one of them on a
+// mutex: inside a bubble the fake clock stands still while a goroutine is
+// blocked non-durably, so no timer can fire and nothing outside the bubble can
+// reach its mutexes), or a real-time limit passes (harness error). A dead
+// bubble is abandoned (its goroutines leak) and the search goes on.
+func runBubble(t *testing.T, body func()) (res runResult) {
+	done := make(chan struct{})
+	var id atomic.Value
+	var inner bubble.RunResult
+	go func() {
+		defer close(done)
 		defer func() {
 			if r := recover(); r != nil {
-				res.Panic = r
-				buf := make([]byte, 1<<16)
-				res.Stack = string(buf[:runtime.Stack(buf, false)])
+				s := fmt.Sprint(r)
+				if strings.Contains(s, "deadlock") || strings.Contains(s, "blocked goroutines remain") {
+					inner.Deadlock = s
+					return
+				}
+				inner.Panic = r
 			}
 		}()
-		body()
-	})
-	return res
+		synctest.Test(t, func(t *testing.T) {
+			defer func() {
+				if r := recover(); r != nil {
+					inner.Panic = r
+					buf := make([]byte, 1<<16)
+					inner.Stack = string(buf[:runtime.Stack(buf, false)])
+				}
+			}()
+			buf := make([]byte, 256)
+			if m := bubbleRE.FindSubmatch(buf[:runtime.Stack(buf, false)]); m != nil {
+				id.Store(string(m[1]))
+			}
+			body()
+		})
+	}()
+	tick := time.NewTimer(1 * time.Second)
+	defer tick.Stop()
+	for waited := 0; ; waited += 3 {
+		select {
+		case <-done:
+			http2.VerifResetPools()
+			res.RunResult = inner
+			return res
+		case <-tick.C:
+		}
+		bid, _ := id.Load().(string)
+		buf := make([]byte, 4<<20)
+		dump := string(buf[:runtime.Stack(buf, true)])
+		if dead, where, stack := analyse(dump, bid); dead && bid != "" {
+			// look twice: the state must be stable
+			time.Sleep(200 * time.Millisecond)
+			dump2 := string(buf[:runtime.Stack(buf, true)])
+			if dead2, where2, _ := analyse(dump2, bid); dead2 && where2 == where {
+				select {
+				case <-done:
+					res.RunResult = inner
+					return res
+				default:
+				}
+				http2.VerifResetPools()
+				res.Hang, res.HangStack = where, stack
+				return res
+			}
+		}
+		if waited >= 120 {
+			http2.VerifResetPools()
+			res.Watchdog = "execution neither finished nor provably dead after 120 s of real time"
+			return res
+		}
+		tick.Reset(3 * time.Second)
+	}
 }
